@@ -175,3 +175,29 @@ Definition entry_covers (host entry : bytes) : bool :=
 Definition authority_matched (authority : bytes) (names : list bytes) : option bytes :=
   let host := host_of_authority authority in
   if is_nil host then None else find (entry_covers host) names.
+
+(** ** strict SNI: the legacy predicate [authority_matches_sni] and the
+    decision taken at the call site (mux/router.rs [route_from_request]) *)
+Fixpoint eq_lower_left (a s : bytes) : bool :=      (* zip + all(a.to_ascii_lowercase() == s) *)
+  match a, s with
+  | x :: a', y :: s' => N.eqb (lower x) y && eq_lower_left a' s'
+  | _, _ => true
+  end.
+Definition authority_matches_sni (authority sni : bytes) : bool :=
+  let h := strip_port authority in
+  if Nat.eqb (length h) (length sni) then eq_lower_left h sni else false.
+
+(** [true] = the request goes on to routing, [false] = 421.  [sni] is the
+    server name of the handshake (None on plain-text listeners), [names] the
+    names of the certificate served at the handshake when they were recorded *)
+Definition strict_decision (strict : bool) (sni : option bytes) (names : option (list bytes))
+           (authority : bytes) : bool :=
+  match (if strict then sni else None) with
+  | None => true
+  | Some s =>
+    match names with
+    | Some ns => is_some (authority_matched authority ns)
+    | None => authority_matches_sni authority s
+    end
+  end.
+
